@@ -8,7 +8,9 @@
    other than [::1] (ipaddress validation), non-ASCII characters or percent-escapes >= 0x80 in a query
    (UTF-8 decoding with replacement). *)
 From Coq Require Import String.
-From Verif Require Import Lib.Base Lib.PyStr Lib.Urlenc.
+From Verif Require Import Lib.Base.
+From Verif Require Import Lib.PyStr.
+From Verif Require Import Lib.Urlenc.
 Open Scope N_scope.
 
 (* ---- character classes ---- *)
